@@ -30,6 +30,7 @@ struct Acc {
     messages: BTreeSet<String>,
     violations: Vec<(String, serde_json::Value)>,
     by_family: BTreeMap<String, usize>,
+    skipped_after_hangs: usize,
 }
 
 fn message_template(m: &str) -> String {
@@ -90,6 +91,15 @@ struct Case {
 
 fn judge_batch(runner: &mut Runner, ops: &mvm::OpTable, batch: Vec<Case>) -> Acc {
     let mut acc = Acc::default();
+    // a run that has already reported this many batches that hang stops exploring: its verdict stands, and
+    // the evidence says how much was left out
+    if BATCHES_TIMED_OUT.load(std::sync::atomic::Ordering::Relaxed) >= BATCHES_TO_REPORT {
+        acc.skipped_after_hangs += batch.len();
+        return acc;
+    }
+    if HANGS_ISOLATED.load(std::sync::atomic::Ordering::Relaxed) >= HANGS_TO_ISOLATE {
+        runner.timeout = std::time::Duration::from_secs(8);
+    }
     let mut req = Request {
         op: "compile_batch".into(),
         snippets: batch.iter().map(|c| c.src.clone()).collect(),
@@ -105,8 +115,47 @@ fn judge_batch(runner: &mut Runner, ops: &mvm::OpTable, batch: Vec<Case>) -> Acc
         }
         return acc;
     }
-    // a panic, crash or hang somewhere in the batch: run every case alone to find the culprit(s)
-    for c in &batch {
+    // a panic, crash or hang somewhere in the batch: run every case alone to find the culprit(s).  A single
+    // input compiles in well under a millisecond: alone, five seconds are a hang.  Once enough inputs
+    // have been isolated (a compiler that loops does so on thousands of mutants), a batch that does not
+    // finish is reported as a whole, with all its inputs, instead of waiting for each of them.
+    let batch_timeout = runner.timeout;
+    if matches!(&obs, Obs::Timeout) && HANGS_ISOLATED.load(std::sync::atomic::Ordering::Relaxed) >= HANGS_TO_ISOLATE {
+        for c in &batch {
+            count(&mut acc, c);
+        }
+        BATCHES_TIMED_OUT.fetch_add(1, std::sync::atomic::Ordering::Relaxed);
+        acc.violations.push((
+            format!("a batch of {} inputs did not finish compiling within {} s (inputs that hang the compiler have already been isolated {} times in this run)", batch.len(), batch_timeout.as_secs(), HANGS_TO_ISOLATE),
+            json!({"family": batch[0].family, "sources": batch.iter().map(|c| c.src.clone()).collect::<Vec<_>>(), "observed": "timeout"}),
+        ));
+        return acc;
+    }
+    runner.timeout = std::time::Duration::from_secs(5);
+    for (k, c) in batch.iter().enumerate() {
+        if HANGS_ISOLATED.load(std::sync::atomic::Ordering::Relaxed) >= HANGS_TO_ISOLATE && k + 1 < batch.len() {
+            // enough examples: the rest of this batch in one request
+            let rest = &batch[k..];
+            runner.timeout = std::time::Duration::from_secs(10);
+            let mut req = Request { op: "compile_batch".into(), snippets: rest.iter().map(|c| c.src.clone()).collect(), want: vec!["dump".into()], ..Default::default() };
+            match runner.call(&mut req) {
+                Obs::Resp(r) if r.results.len() == rest.len() => {
+                    for (i, c) in rest.iter().enumerate() {
+                        judge_one(&mut acc, ops, c, &r.results[i].outcome, r.batch_roots.get(i).copied().flatten(), &r.functions);
+                    }
+                }
+                other => {
+                    for c in rest {
+                        count(&mut acc, c);
+                    }
+                    acc.violations.push((
+                        format!("{} inputs compiled in one request end in {} (inputs that hang or crash the compiler have already been isolated {} times in this run)", rest.len(), other.describe(), HANGS_TO_ISOLATE),
+                        json!({"family": rest[0].family, "sources": rest.iter().map(|c| c.src.clone()).collect::<Vec<_>>(), "observed": other.describe()}),
+                    ));
+                }
+            }
+            break;
+        }
         let mut req = Request {
             op: "compile_batch".into(),
             snippets: vec![c.src.clone()],
@@ -119,6 +168,9 @@ fn judge_batch(runner: &mut Runner, ops: &mvm::OpTable, batch: Vec<Case>) -> Acc
             }
             other => {
                 count(&mut acc, c);
+                if matches!(&other, Obs::Timeout) {
+                    HANGS_ISOLATED.fetch_add(1, std::sync::atomic::Ordering::Relaxed);
+                }
                 acc.violations.push((
                     format!("compiling this input ends in {}", other.describe()),
                     json!({"family": c.family, "source": c.src, "observed": other.describe()}),
@@ -126,8 +178,14 @@ fn judge_batch(runner: &mut Runner, ops: &mvm::OpTable, batch: Vec<Case>) -> Acc
             }
         }
     }
+    runner.timeout = batch_timeout;
     acc
 }
+
+static HANGS_ISOLATED: std::sync::atomic::AtomicUsize = std::sync::atomic::AtomicUsize::new(0);
+static BATCHES_TIMED_OUT: std::sync::atomic::AtomicUsize = std::sync::atomic::AtomicUsize::new(0);
+const BATCHES_TO_REPORT: usize = 40;
+const HANGS_TO_ISOLATE: usize = 12;
 
 fn count(acc: &mut Acc, c: &Case) {
     acc.evaluations += 1;
@@ -216,6 +274,7 @@ fn merge(a: &mut Acc, b: Acc) {
     a.nontrivial.extend(b.nontrivial);
     a.messages.extend(b.messages);
     a.violations.extend(b.violations);
+    a.skipped_after_hangs += b.skipped_after_hangs;
     for (k, v) in b.by_family {
         *a.by_family.entry(k).or_insert(0) += v;
     }
@@ -465,7 +524,7 @@ pub fn run(ctx: &Ctx) -> Report {
     }
     let ops_ref = &ops;
     let accs = par_map(&ctx.runner_checked, ctx.workers, Batcher { it: all }, |runner, _i, batch| {
-        runner.timeout = std::time::Duration::from_secs(60);
+        runner.timeout = std::time::Duration::from_secs(30);
         runner.recycle_after = 50;
         judge_batch(runner, ops_ref, batch)
     });
@@ -474,12 +533,14 @@ pub fn run(ctx: &Ctx) -> Report {
         merge(&mut acc, a);
     }
 
-    // vacuity guards
-    if acc.ok < 100 || acc.err < 100 {
+    // vacuity guards (a run cut short by hangs has its violations; the guards are for complete runs)
+    if acc.skipped_after_hangs > 0 {
+        report.cov("inputs_not_explored_after_40_batches_hung", json!(acc.skipped_after_hangs));
+    } else if acc.ok < 100 || acc.err < 100 {
         crate::pool::machinery_failure(&format!("vacuous C03 run: ok={} err={}", acc.ok, acc.err));
     }
     let expected_c = total_seq;
-    if acc.by_family.get("c_token_seq").copied().unwrap_or(0) != expected_c {
+    if acc.skipped_after_hangs == 0 && acc.by_family.get("c_token_seq").copied().unwrap_or(0) != expected_c {
         crate::pool::machinery_failure("token-sequence family did not produce the predicted number of cases");
     }
 
@@ -489,7 +550,7 @@ pub fn run(ctx: &Ctx) -> Report {
     report.cov("transitions", json!(acc.evaluations));
     report.cov("traces_validated_against_impl", json!(acc.evaluations));
     report.cov("rule", json!("inputs enumerated exhaustively per family (every prefix at every char boundary of every repository script and core.yl; token-level delete/duplicate/swap[/replace-by-each-token-kind] mutants at every token position; every token sequence up to the stated length over the full token vocabulary; nesting ladders and limit-sized programs; valid programs with one stray closer at every token position; character-level mutants: every single-character deletion and insertions of ten lexically significant characters; five recovery templates - every statement form nested, with control flow after the places a mutant breaks - under deletion, duplication, swap, and replacement by / insertion of each of the 71 token kinds at every token position). distinct = distinct source text; non-trivial = at least two tokens by the reference lexer."));
-    report.cov("exhaustive", json!(true));
+    report.cov("exhaustive", json!(acc.skipped_after_hangs == 0));
     report.cov("bounds", json!({"token_sequence_length": seq_len, "vocabulary": nv, "replacement_mutants": thorough, "ladder_depth_max": 256}));
     report.cov("by_family", json!(acc.by_family));
     report.cov("outcomes", json!({"ok": acc.ok, "compile_error": acc.err}));
@@ -504,7 +565,7 @@ pub fn run(ctx: &Ctx) -> Report {
     ]));
     report.assumptions = vec![
         "inputs outside the enumerated families (arbitrary Unicode beyond the sampled characters, sequences longer than the bound) are not covered".into(),
-        "a hang is detected by a 60 s watchdog per batch of 400 inputs".into(),
+        "a hang is detected by a 30 s watchdog per batch of 400 inputs and a 5 s watchdog per input compiled alone; after 12 isolated hangs a batch that does not finish is reported as a whole".into(),
         "'returned a function after reporting an error' is observed indirectly: accepted functions must be structurally valid code (M-vm) and valid programs with an injected stray closer must be rejected".into(),
     ];
     report.violations = acc.violations;
